@@ -28,7 +28,7 @@ LEVEL = "exploration"
 SHARDS = {"quick": 4, "thorough": 16}
 RULE = (
     "Hypothesis draws (prior context of 0..3 accepted array checks, leaf type L, tree): L in {int, str, tuple[int,int], "
-    "Union[int,str], int|str, Any, Shaped[ndarray, spec] with named/variadic axes, Union[Shaped[..], str], Shaped[..]|str, tuple[Shaped[..], int]}; tree payloads are mostly of the right kind with "
+    "Union[int,str], int|str, Any, Shaped[ndarray, spec] with named/variadic axes, Union[Shaped[..], str], Shaped[..]|str, tuple[Shaped[..], int], a NamedTuple class with two array fields}; tree payloads are mostly of the right kind with "
     "~15% wrong-kind leaves; array leaf shapes are drawn one after the other against the evolving model context (so later "
     "leaves meet bindings made by earlier ones) and broken w.p. ~0.15 each. Each case evaluates PyTree[L], PyTree[PyTree[L]] "
     "and bare PyTree. Non-trivial = >=3 leaves at >=2 depths AND (a subtree that itself matches L, or a None/empty node, or an "
@@ -40,8 +40,9 @@ ASSUMPTIONS = [
     "reference PyTree model vf/models/pytree.py (cross-checked against jax.tree_util inside C09's run)",
 ]
 
-LEAF_KINDS = ["array", "union-arr", "int", "tuple-arr", "pair", "array", "union", "union-bar", "str", "any", "array", "union-arr-bar"]
-ARRAYISH = ("array", "union-arr", "tuple-arr", "union-arr-bar")
+LEAF_KINDS = ["array", "union-arr", "int", "tuple-arr", "nt-arr", "pair", "array", "union", "union-bar", "str", "any", "array", "union-arr-bar"]
+ARRAYISH = ("array", "union-arr", "tuple-arr", "union-arr-bar", "nt-arr")
+_PAIR_CLS = {}
 
 
 def leaf_type(lk, spec):
@@ -63,6 +64,14 @@ def leaf_type(lk, spec):
         return Union[Shaped[np.ndarray, spec], str]
     if lk == "tuple-arr":
         return tuple[Shaped[np.ndarray, spec], int]
+    if lk == "nt-arr":
+        # a NamedTuple class whose two fields are array annotations: its instances are leaves, both fields share bindings
+        if spec not in _PAIR_CLS:
+            from typing import NamedTuple
+
+            F = Shaped[np.ndarray, spec]
+            _PAIR_CLS[spec] = NamedTuple("Pair", [("p", F), ("q", F)])
+        return _PAIR_CLS[spec]
     return Shaped[np.ndarray, spec]
 
 
@@ -83,6 +92,8 @@ def matches_flat(d, lk):
         return is_arr_int(d)
     if lk == "union-arr":
         return d[0] == "leaf" and d[1][0] in ("a", "s")
+    if lk == "nt-arr":
+        return d[0] == "leaf" and d[1][0] == "P"
     if d[0] != "leaf":
         return False
     pk = d[1][0]
@@ -112,8 +123,15 @@ def model(lk, meanings, desc, m: dl.MCtx):
             return {dl.FALSE}, m, {"leaves": len(lvs)}
         if lk in ARRAYISH and not (lk in ("union-arr", "union-arr-bar") and lf[1][0] == "s"):
             before = set(m2.single) | set(m2.variadic)
-            shp = lf[1][0][1][1] if lk == "tuple-arr" else lf[1][1]
-            o = dl.match(meanings, shp, m2)
+            if lk == "nt-arr":
+                # two fields, matched one after the other
+                o = dl.match(meanings, lf[1][1][0], m2)
+                if o.allowed == {dl.TRUE}:
+                    o2 = dl.match(meanings, lf[1][1][1], o.ctx)
+                    o = dl.Outcome(o2.allowed, o2.ctx, o.tentative + o2.tentative, tuple(set(o.classes) | set(o2.classes) | {"named-bound"}))
+            else:
+                shp = lf[1][0][1][1] if lk == "tuple-arr" else lf[1][1]
+                o = dl.match(meanings, shp, m2)
             if any(c in o.classes for c in ("named-bound",)) or any(c.startswith("var-") and c != "var-new" and "prefix" not in c and "suffix" not in c for c in o.classes):
                 used_binding = True
             if o.allowed == {dl.TRUE}:
@@ -181,7 +199,7 @@ def check_case(ctx, case):
     meanings = [t.meaning() for t in toks]
     L = leaf_type(lk, spec)
     desc = gt.from_json(case["tree"])
-    real = pt.build(desc, payload_value)
+    real = pt.build(desc, (lambda p: L(np.zeros(tuple(p[1][0])), np.zeros(tuple(p[1][1]))) if p[0] == "P" else payload_value(p)))
     with jaxtyped("context"):
         m = dl.MCtx()
         for pj, shape in case["prior"]:
@@ -221,7 +239,7 @@ def check_case(ctx, case):
         if got == dl.TRUE and obs.verdict(real, PyTree[L]) != dl.TRUE:
             raise Violation("idempotence", case, f"second identical check failed; {descr}")
     dl_ = depths_of_leaves(desc)
-    subtree_leaf = lk in ("pair", "tuple-arr") and "pair-subtree" in case.get("flags", [])
+    subtree_leaf = lk in ("pair", "tuple-arr", "nt-arr") and "pair-subtree" in case.get("flags", [])
     nontrivial = len(dl_) >= 3 and len(set(dl_)) >= 2 and (subtree_leaf or has_empty(desc) or info.get("used_binding", False))
     ctx.note([lk, spec, case["tree"], case["prior"]], nontrivial,
              classes=[f"leaf-{lk}", f"got-{got}", f"nleaves-{min(len(dl_), 6)}"] + (["has-empty-or-none"] if has_empty(desc) else [])
@@ -242,7 +260,7 @@ def c08_case(draw):
         if o.ctx is not None and o.allowed == {dl.TRUE}:
             m = o.ctx
         case["prior"].append([[c01.tok_json(t) for t in ptoks], list(shape)])
-    allow = ("tuple", "list", "dict", "none", "nt", "custom") if lk not in ("pair", "tuple-arr") else ("tuple", "list", "dict", "none", "custom")
+    allow = ("tuple", "list", "dict", "none", "nt", "custom") if lk not in ("pair", "tuple-arr", "nt-arr") else ("tuple", "list", "dict", "none", "custom")
     shape_desc = draw(gt.tree_desc(st.just(0), max_depth=4, max_leaves=12, allow=allow))
     nl = len(pt.leaves(shape_desc))
     payloads = []
@@ -264,6 +282,16 @@ def c08_case(draw):
             o = dl.match(meanings, shp, mm)
             if o.ctx is not None:
                 mm = o.ctx
+            if lk == "nt-arr":
+                shp2 = shp
+                if o.ctx is not None:
+                    shp2, _ = draw(gd.shape_for(meanings, mm, mutate_prob=0.12))
+                    o2 = dl.match(meanings, shp2, mm)
+                    if o2.ctx is not None:
+                        mm = o2.ctx
+                payloads.append(("P", [list(shp), list(shp2)]))
+                case["flags"] = ["pair-subtree"]
+                continue
             payloads.append(("arrint" if lk == "tuple-arr" else "a", list(shp)))
             if lk == "tuple-arr":
                 case["flags"] = ["pair-subtree"]
